@@ -204,7 +204,7 @@ def _get_spec(factory, name):
 def expand(arg):
     """worker: for each (schedule, key) in the frontier, replay it, evaluate
     the invariant, and compute all successor states by further replays"""
-    factory, name, frontier, max_kills, tear_mode = arg
+    factory, name, frontier, max_kills, tear_mode, pbound = arg
     sp = _get_spec(factory, name)
     patcher = vfs.Patcher()
     patcher.install()
@@ -212,15 +212,23 @@ def expand(arg):
     out = []
     try:
         tear_points = sp["tear_points"][tear_mode]
-        for sched, key in frontier:
+        for sched, key, used in frontier:
             ex = replay(sp["spec"], sched, patcher)
             try:
                 if key is not None and ex.key() != key:
                     raise HarnessError("replay of %r diverged" % (sched, ))
                 acts = successors(ex, max_kills, tear_points, sp["late"])
+                # iterative context bounding: switching away from a process
+                # that could still run costs one preemption
+                last = sched[-1][1] if sched else None
+                still = last is not None and last in ex.enabled()
             finally:
                 ex.finish()
             for a in acts:
+                used2 = used + (1 if still and a[1] != last else 0)
+                if pbound is not None and used2 > pbound:
+                    acc.count("pruned_by_preemption_bound")
+                    continue
                 s2 = list(sched) + [a]
                 ex2 = replay(sp["spec"], s2, patcher)
                 try:
@@ -246,7 +254,7 @@ def expand(arg):
                         {"scenario": name, "schedule": [list(x) for x in s2]},
                         sp["classify"](msgs))
                     continue
-                out.append((s2, k2))
+                out.append((s2, k2, used2))
     finally:
         patcher.uninstall()
     return out, acc
@@ -258,7 +266,11 @@ def fmt(schedule):
 
 
 def explore(ctx, factory, name, max_kills=0, tear_mode="quick",
-            max_states=None):
+            max_states=None, preemption_bound=None):
+    """preemption_bound=None: all interleavings (state-hash pruned);
+    preemption_bound=k: all schedules with at most k preemptions (a state is
+    then (file system + observations, last running process, preemptions
+    used))"""
     sp = _get_spec(factory, name)
     acc = Acc()
     patcher = vfs.Patcher()
@@ -275,14 +287,15 @@ def explore(ctx, factory, name, max_kills=0, tear_mode="quick",
     if msgs:
         acc.violation("schedule", "%s initially: %s" % (name, msgs[0]),
                       {"scenario": name, "schedule": []}, sp["classify"](msgs))
-    seen = {k0: []}
-    frontier = [([], k0)]
+    pb = preemption_bound
+    seen = {(k0, None, 0): []}
+    frontier = [([], k0, 0)]
     depth = 0
     while frontier:
         depth += 1
         nshards = max(1, min(len(frontier), ctx.jobs * 3))
         results = pmap(ctx, __name__, "expand",
-                       [(factory, name, part, max_kills, tear_mode)
+                       [(factory, name, part, max_kills, tear_mode, pb)
                         for part in shard(frontier, nshards)])
         new = []
         for out, a in results:
@@ -290,11 +303,12 @@ def explore(ctx, factory, name, max_kills=0, tear_mode="quick",
             new.extend(out)
         new.sort(key=lambda sk: [tuple(x) for x in sk[0]])
         frontier = []
-        for s2, k2 in new:
-            if k2 in seen:
+        for s2, k2, used2 in new:
+            dk = (k2, None, 0) if pb is None else (k2, s2[-1][1], used2)
+            if dk in seen:
                 continue
-            seen[k2] = s2
-            frontier.append((s2, k2))
+            seen[dk] = s2
+            frontier.append((s2, k2, used2))
         if max_states is not None and len(seen) > max_states and frontier:
             acc.cap_hit("%s: state cap %d hit at depth %d" %
                         (name, max_states, depth))
